@@ -162,6 +162,26 @@ pub fn check(tape: &[u32]) -> CheckResult {
         let got = mapper.lookup(rgb[0], rgb[1], rgb[2], a);
         labels.push(lookup_ok(rgb, a, got)?.to_string());
     }
+    // a second mapper built from the SAME palette with other options must follow its own options
+    {
+        let failure2 = failure.wrapping_add(1 + t.below(200) as u8);
+        let transparent2 = if transparent.is_some() { None } else { Some(t.u8_biased()) };
+        let mapper2 = PaletteMapper::new(pal, MappingOptions { failure: failure2, transparent: transparent2 });
+        for (i, c) in colors.iter().enumerate().take(400) {
+            let id = first + i as u32;
+            let got = mapper2.lookup(c[0], c[1], c[2], 255);
+            let (lo, hi) = occurrences(*c);
+            let ok = if lo.is_empty() { got == failure2 } else if hi.is_empty() { lo.contains(&(got as u32)) } else { lo.contains(&(got as u32)) || got == failure2 };
+            if !ok {
+                return Err(Failure::new("second-mapper", format!("a second PaletteMapper (failure index {}) built from the same palette as a first one (failure index {}) maps entry {} {:?} to {}", failure2, failure, id, c, got)).with(detail()));
+            }
+        }
+        let got = mapper2.lookup(1, 2, 3, 7);
+        if got != transparent2.unwrap_or(failure2) {
+            return Err(Failure::new("second-mapper", format!("second mapper: non-opaque colour maps to {}, expected {}", got, transparent2.unwrap_or(failure2))).with(detail()));
+        }
+        labels.push("second-mapper".to_string());
+    }
     // images
     let img = gen_image(&mut t, &colors);
     check_extrude(&img).map_err(|e| e.with(json!({"dims": img.dimensions(), "pixels_prefix": img.as_raw().iter().take(64).collect::<Vec<_>>()})))?;
